@@ -379,6 +379,9 @@ def main_check(prop, tier, seed, only=None, jobs=None):
             else:
                 new[sig]["count"] += inf["count"]
 
+    # 2b. coverage-guided stage (thorough tier; modules opt in with FUZZ = {"shards": [...], "runs": N})
+    fuzz_ev = run_fuzz_stage(prop, mod, tier, seed, new) if only is None else None
+
     # 3. report
     lines = []
     for entry in known:
@@ -422,6 +425,9 @@ def main_check(prop, tier, seed, only=None, jobs=None):
         "wall_s": round(time.time() - t0, 2),
         "violations": len(new),
     }
+    if fuzz_ev is not None:
+        evidence["coverage"]["fuzz"] = fuzz_ev
+        evidence["coverage"]["evaluations"] += fuzz_ev.get("cases_judged", 0)
     extra = getattr(mod, "extra_evidence", None)
     if extra:
         evidence["coverage"].update(extra(tier))
@@ -448,6 +454,75 @@ def main_check(prop, tier, seed, only=None, jobs=None):
         print("HARNESS-ERROR: generator produced fewer than 2 non-trivial cases", file=sys.stderr)
         return 2
     return 0
+
+
+def run_fuzz_stage(prop, mod, tier, seed, new):
+    """atheris/libFuzzer over the same strategies and oracle (hxv/fuzz/target.py), several processes with
+    different seeds, fresh corpus directories outside /repo and /verif.  Never turns an environment problem
+    into a violation: if python3-vt/atheris is unavailable the stage is skipped and evidence says so."""
+    import shutil
+    import subprocess
+    import tempfile
+
+    from hxv import SRC
+
+    cfg = getattr(mod, "FUZZ", None)
+    if not cfg or (tier != "thorough" and not os.environ.get("HXV_FUZZ")):
+        return None
+    py = shutil.which("python3-vt") or "/opt/veriftools/pyvenv/bin/python"
+    probe = subprocess.run([py, "-c", "import atheris, hypothesis"], capture_output=True, text=True)
+    if probe.returncode != 0:
+        return {"skipped": "atheris/hypothesis not importable under python3-vt: " + probe.stderr.strip()[-200:]}
+    runs = int(os.environ.get("HXV_FUZZ_RUNS", cfg.get("runs", 200000 if tier == "thorough" else 5000)))
+    budget = int(os.environ.get("HXV_FUZZ_SECONDS", cfg.get("seconds", 600 if tier == "thorough" else 20)))
+    work = tempfile.mkdtemp(prefix="hxfuzz.", dir="/var/tmp")
+    procs = []
+    try:
+        k = 0
+        for shard_name in cfg["shards"]:
+            for rep in range(cfg.get("procs_per_shard", 2)):
+                corpus = os.path.join(work, f"corpus{k}")
+                os.makedirs(corpus)
+                if rep % 2 == 1:  # half of the processes start from a few small valid inputs, half from nothing
+                    for i, blob in enumerate((b"\x00" * 64, bytes(range(256)), b"\x01\x02\x03" * 100)):
+                        with open(os.path.join(corpus, f"seed{i}"), "wb") as fh:
+                            fh.write(blob)
+                env = dict(os.environ, PYTHONPATH=f"{VERIF}:{SRC}", PYTHONHASHSEED="0", HXV_OUT=out_dir())
+                cmd = [py, "-m", "hxv.fuzz.target", prop, shard_name, f"-runs={runs}", f"-seed={int(seed) * 100 + k + 1}", "-max_len=4096", "-len_control=0", f"-max_total_time={budget}", "-print_final_stats=1", corpus]
+                procs.append((shard_name, k, subprocess.Popen(cmd, cwd=VERIF, env=env, stdout=subprocess.PIPE, stderr=subprocess.STDOUT, text=True)))
+                k += 1
+        ev = {"engine": "atheris (libFuzzer) via hypothesis.fuzz_one_input", "processes": len(procs), "runs_requested_each": runs, "seconds_cap_each": budget, "execs": 0, "cases_judged": 0, "nontrivial_cases": 0, "known_excluded": 0, "by_process": []}
+        for shard_name, k, pr in procs:
+            out, _ = pr.communicate()
+            execs = cov = ft = cases = nontriv = known_n = 0
+            for ln in out.splitlines():
+                if ln.startswith("stat::number_of_executed_units:"):
+                    execs = int(ln.split()[-1])
+                elif " cov: " in ln and " ft: " in ln:
+                    parts = ln.split()
+                    cov, ft = int(parts[parts.index("cov:") + 1]), int(parts[parts.index("ft:") + 1])
+                elif ln.startswith("FUZZ-STATS"):
+                    kv = dict(x.split("=") for x in ln.split()[1:])
+                    cases, nontriv, known_n = int(kv["cases"]), int(kv["nontrivial"]), int(kv["known"])
+                elif ln.startswith("FUZZ-VIOLATION"):
+                    sig = ln.split("signature=")[1].split(" replay=")[0]
+                    rel = ln.split(" replay=")[1].split(" detail=")[0]
+                    detail = ln.split(" detail=")[1] if " detail=" in ln else ""
+                    try:
+                        with open(os.path.join(out_dir(), rel)) as fh:
+                            case = json.load(fh)["case"]
+                    except Exception:
+                        case = None
+                    if sig not in new:
+                        new[sig] = {"case": case, "detail": detail, "count": 1, "shard": "fuzz:" + shard_name}
+            ev["execs"] += execs
+            ev["cases_judged"] += cases
+            ev["nontrivial_cases"] += nontriv
+            ev["known_excluded"] += known_n
+            ev["by_process"].append({"shard": shard_name, "execs": execs, "cov": cov, "features": ft, "cases_judged_at_last_report": cases, "exit": pr.returncode})
+        return ev
+    finally:
+        shutil.rmtree(work, ignore_errors=True)
 
 
 def main_replay(prop, path):
